@@ -442,6 +442,72 @@ pub fn run(ctx: &Ctx) -> CheckResult {
             res.absorb(o);
         }
     }
+    // (c') medium periods, up to three deviations of tie-producing kinds at every set of positions
+    // (props/devfam.rs): double / triple copies of the window extreme, one of them exactly one period after
+    // another, dips right after peaks - the states of shortcuts that only exist for longer windows
+    let mut devfam_seqs = 0u64;
+    if !res.out.failed() {
+        use super::devfam::*;
+        let kinds: Vec<Kind> = ALL_KINDS.iter().copied().filter(|k| k.nperiods() >= 1).collect();
+        let plan: Vec<(usize, usize, &[Dev])> = if th { vec![(9, 3, &DEVS_ALL[..]), (10, 3, &DEVS_ABS[..]), (14, 3, &DEVS_ABS[..]), (17, 3, &DEVS_ALL[..]), (20, 3, &DEVS_ABS[..]), (33, 2, &DEVS_ALL[..])] } else { vec![(9, 3, &DEVS_ABS[..]), (9, 2, &DEVS_ALL[..]), (17, 3, &DEVS_ABS[..]), (17, 2, &DEVS_ALL[..])] };
+        let mut jobs: Vec<(Cfg, Base, usize, usize, &[Dev], bool)> = vec![];
+        for &(n, k, devs) in &plan {
+            for kind in &kinds {
+                let cfg = Cfg::of(*kind, &[n, 3, 2], 2.0);
+                for b in BASES {
+                    if kind.has_scalar() {
+                        jobs.push((cfg, b, n, k, devs, false));
+                    }
+                    if !kind.has_scalar() || kind.bar_native() {
+                        jobs.push((cfg, b, n, k, devs, true));
+                    }
+                }
+            }
+        }
+        let outs = par_run(ctx, &jobs, |_, (cfg, b, n, k, devs, bars)| {
+            let mut out = JobOut::default();
+            let len = 3 * n + 3;
+            for first in 0..len {
+                if ctx.out_of_time() {
+                    out.stats.capped.push(format!("time cap in deviation families of {}", cfg.descr()));
+                    break;
+                }
+                for kk in 1..=*k {
+                    let go = for_each_from(first, len, kk, devs, &mut |set| {
+                        let v = build(*b, *n, len, set);
+                        out.stats.traces += 1;
+                        out.stats.states += 1;
+                        out.stats.evaluations += 1;
+                        out.stats.nontrivial += 1;
+                        out.stats.transitions += len as u64;
+                        let mut step = 0usize;
+                        let r = std::panic::catch_unwind(std::panic::AssertUnwindSafe(|| {
+                            let mut s = make(cfg);
+                            for x in &v {
+                                let op = if *bars { Op::B(bar_of(*x)) } else { Op::S(*x) };
+                                s.apply(&op);
+                                step += 1;
+                            }
+                        }));
+                        if r.is_err() {
+                            let ops = to_ops(&v, *bars);
+                            report(cfg, &ops, step, "next/reset", &mut out, format!("{:?} base with deviations {:?}", b, set));
+                            return false;
+                        }
+                        true
+                    });
+                    if !go {
+                        return out;
+                    }
+                }
+            }
+            out
+        });
+        let m = merge_jobs(outs);
+        devfam_seqs = m.stats.traces;
+        res.absorb(m);
+    }
+    res.extra.insert("deviation_family_sequences".into(), json!(devfam_seqs));
     // (d) arbitrarily many calls: long runs past hundreds of thousands of wrap-arounds
     // (narrow wrap / call counters overflow only after 2^8 or 2^16 wraps)
     if !res.out.failed() {
